@@ -1128,13 +1128,25 @@ def int_to_bytes(x, n, signed=False):
     tx = T(x)
     if CUR.fork(z3.Or(tx < 0, tx >= (1 << (8 * n)))):
         raise PyExc("OverflowError", "int too big to convert")
+    return BList(digits_of(tx, n))
+
+
+def digits_of(tx, n):
+    """the n base-256 digits of the integer term tx (0 <= tx < 256^n): fresh variables tied to tx by one Horner
+    equation, shared by every request for the same term and width (so two encodings of one value are identical)"""
+    cache = CUR.__dict__.setdefault("digit_cache", {})
+    key = (tx.sexpr(), n)
+    if key in cache:
+        return cache[key]
     ds = [CUR.fresh_int("d") for _ in range(n)]
     h = z3.IntVal(0)
     for d in ds:
         CUR.add(z3.And(d >= 0, d <= 255))
         h = h * 256 + d
     CUR.add(h == tx)
-    return BList([SymInt(d) for d in ds])
+    out = [SymInt(d) for d in ds]
+    cache[key] = out
+    return out
 
 
 def is_slice_of(x, base):
